@@ -17,33 +17,62 @@ mod replay;
 
 use mc_core::*;
 
+fn run_prop(ctx: &Ctx) -> Option<(Report, Meta)> {
+    Some(match ctx.prop.as_str() {
+        "C01" => decode_checks::c01a(ctx),
+        "C02" => decode_checks::c02(ctx),
+        "C07" => bits::c07(ctx),
+        "C10" => msm::c10(ctx),
+        "C12" => builder::c12(ctx),
+        "C15" => lists::c15(ctx),
+        "C16" => bias::c16(ctx),
+        "C17" => textchk::c17(ctx),
+        "C18" => sig::c18(ctx),
+        "C08" => field::c08(ctx),
+        "C11" => field::c11(ctx),
+        "C03" => frame::c03(ctx),
+        "C04" => frame::c04(ctx),
+        "C05" => frame::c05(ctx),
+        "C06" => frame::c06(ctx),
+        "C13" => frame::c13(ctx),
+        "C14" => frame::c14(ctx),
+        _ => return None,
+    })
+}
+
 fn main() {
     let ctx = Ctx::from_args();
     install_panic_hook();
     watchdog_start(60);
     if let Some(p) = &ctx.replay {
-        std::process::exit(replay::replay(&ctx, p));
+        let code = replay::replay(&ctx, p);
+        if code != 3 {
+            std::process::exit(code);
+        }
+        // no single-execution replay for this kind of record: re-run the property's exploration and
+        // look for the recorded key
+        let key = std::fs::read_to_string(p).ok().and_then(|s| serde_json::from_str::<serde_json::Value>(&s).ok()).and_then(|v| v["key"].as_str().map(|x| x.to_string())).unwrap_or_default();
+        match run_prop(&ctx) {
+            None => {
+                println!("MACHINERY-FAILURE: unknown property {:?}", ctx.prop);
+                std::process::exit(2);
+            }
+            Some((rep, _)) => match rep.viol.get(&(ctx.prop.clone(), key.clone())) {
+                Some(v) => {
+                    println!("property: {}\nkey: {}\nfound again by re-running the {} exploration ({} occurrence(s)):\n{}\nminimal witness: {}", ctx.prop, key, ctx.tier.name(), v.count, v.what, v.replay);
+                    std::process::exit(1);
+                }
+                None => {
+                    println!("property: {}\nkey: {}\nnot found by re-running the {} exploration ({} other violation key(s))", ctx.prop, key, ctx.tier.name(), rep.viol.len());
+                    std::process::exit(0);
+                }
+            },
+        }
     }
-    let (rep, meta) = match ctx.prop.as_str() {
-        "C01" => decode_checks::c01a(&ctx),
-        "C02" => decode_checks::c02(&ctx),
-        "C07" => bits::c07(&ctx),
-        "C10" => msm::c10(&ctx),
-        "C12" => builder::c12(&ctx),
-        "C15" => lists::c15(&ctx),
-        "C16" => bias::c16(&ctx),
-        "C17" => textchk::c17(&ctx),
-        "C18" => sig::c18(&ctx),
-        "C08" => field::c08(&ctx),
-        "C11" => field::c11(&ctx),
-        "C03" => frame::c03(&ctx),
-        "C04" => frame::c04(&ctx),
-        "C05" => frame::c05(&ctx),
-        "C06" => frame::c06(&ctx),
-        "C13" => frame::c13(&ctx),
-        "C14" => frame::c14(&ctx),
-        other => {
-            println!("MACHINERY-FAILURE: unknown property {:?}", other);
+    let (rep, meta) = match run_prop(&ctx) {
+        Some(x) => x,
+        None => {
+            println!("MACHINERY-FAILURE: unknown property {:?}", ctx.prop);
             std::process::exit(2);
         }
     };
